@@ -51,6 +51,7 @@ def shards(tier: str, seed: int):
         out.append(["seedkeys"])
         out.append(["seedgrid"])
     out.append(["real"])
+    out.append(["tz"])
     out.append(["ticking"])
     out.append(["walk", 0])
     out.append(["walk", 1])
@@ -116,6 +117,50 @@ def case(seed: int, tt: int, sub: int, api: str, cache=None, source: str = "root
     return None, "ok"
 
 
+TZS = ["UTC0", "JST-9", "EST5EDT", "NPT-5:45", "<+14>-14"]
+
+
+def tz_times() -> t.List[int]:
+    out = []
+    for ep in EPOCHS[:4]:
+        base = ep * 1024 * B
+        for edge in (base, base + 5 * 32 * B, base + 5 * 32 * B + 7 * B):
+            for off in (-1, 0, 1, B // 10, B // 2, B - B // 10, B - 1):  # first/last tick, 1 h, 5 h, 9 h into the 10 h interval
+                out.append(edge + off)
+    return out
+
+
+def tz_child(seed: int) -> None:
+    """runs in a child interpreter started with another TZ: the library is imported under that time zone"""
+    import json as _json
+
+    worker_init()
+    bad = []
+    for tt in tz_times():
+        for api in ("sync", "async"):
+            v, _ = case(seed, tt, 0, api)
+            if v:
+                bad.append([tt, api, v[0], v[1]])
+    print("TZRESULT " + _json.dumps(bad, default=str))
+
+
+def run_tz(seed: int, tzname: str):
+    import json as _json
+    import os
+    import subprocess
+    import sys
+
+    from mc.runner import TARGET, VERIF
+
+    env = dict(os.environ, TZ=tzname, PYTHONHASHSEED="0", PYTHONDONTWRITEBYTECODE="1")
+    code = f"import sys; sys.path[:0] = [{TARGET!r}, {VERIF!r}]; from checks import c09; c09.tz_child({seed})"
+    r = subprocess.run([sys.executable, "-c", code], env=env, capture_output=True, text=True, timeout=600)
+    line = next((ln for ln in r.stdout.splitlines() if ln.startswith("TZRESULT ")), None)
+    if line is None:
+        raise RuntimeError(f"tz child failed under TZ={tzname}: {r.stderr[-400:]}")
+    return _json.loads(line[len("TZRESULT "):])
+
+
 def _seed_cache(seed: int, l0: int, pos=(31, 31)):
     """A cache that holds only what a DC returned earlier for (l0,) + pos - no root key."""
     from env import refdc
@@ -125,6 +170,19 @@ def _seed_cache(seed: int, l0: int, pos=(31, 31)):
 
 
 def run_shard(shard, tier, seed, acc) -> None:
+    if shard[0] == "tz":
+        # the process time zone is part of the environment: the same boundary sweep in child interpreters started under other zones
+        n = 0
+        for tzname in TZS:
+            bad = run_tz(seed, tzname)
+            n += len(tz_times()) * 2
+            for tt, api, key, det in bad:
+                acc.violate("tz." + key, ["tz", tzname, tt, api], det, size=abs(tt) % 1000)
+            acc.outcome(f"tz:{tzname}:" + ("viol" if bad else "ok"))
+        acc.ev(n)
+        acc.nt_counted(n)
+        acc.sample({"time zones of the process": TZS, "instants": len(tz_times())})
+        return
     kind = shard[0]
     if kind == "edge":
         _, ep, bk = shard
@@ -275,6 +333,12 @@ def run_shard(shard, tier, seed, acc) -> None:
 
 
 def replay(case_, seed, acc) -> None:
+    if case_[0] == "tz":
+        acc.ev()
+        for tt, api, key, det in run_tz(seed, case_[1]):
+            if tt == case_[2] and api == case_[3]:
+                acc.violate("tz." + key, case_, det)
+        return
     seams.block_network()
     if case_[0] == "t":
         v, oc = case(seed, int(case_[1]), int(case_[2]), case_[3])
